@@ -76,7 +76,7 @@ func init() {
 			"a panic observed at the caller of service.Evaluate is what the gRPC server would die of (no recover in the handler path)"},
 		Quick: 24000, Thorough: 1000000,
 		CaseCap:  60 * time.Second,
-		Required: []string{"outcome_ok", "outcome_error", "world_empty", "world_basic", "world_overlay", "fn_ok:top", "fn_ok:histogram", "fn_ok:take", "fn_ok:find", "fn_ok:map", "extreme_cases", "wrapped", "sessions", "session_replaced_by_shorter"},
+		Required: []string{"outcome_ok", "outcome_error", "world_empty", "world_basic", "world_overlay", "fn_ok:top", "fn_ok:histogram", "fn_ok:take", "fn_ok:find", "fn_ok:map", "extreme_cases", "wrapped", "sessions", "session_replaced_by_shorter", "session_geometry_tag_edit"},
 		Run: func(c *core.Ctx) {
 			r := c.R
 			ws, wname := c23worlds(r.Fork())
@@ -276,6 +276,9 @@ func init() {
 				c.Count("sessions")
 				if g.shorter {
 					c.Count("session_replaced_by_shorter")
+				}
+				if g.geometryEdit {
+					c.Count("session_geometry_tag_edit")
 				}
 			}
 			var rerr error
